@@ -84,7 +84,16 @@ class Scenario:
             rec = {"k": st["k"], "exc": "", "toks": [], "kind": st.get("kind", ""), "name": st.get("name", "")}
             try:
                 def body():
-                    if st["k"] == "enter":
+                    if st["k"] == "env":
+                        # the application itself changes the terminal between two uses of a context object
+                        if st["what"] == "echo":
+                            a = termios.tcgetattr(self.slave)
+                            a[3] ^= termios.ECHO
+                            termios.tcsetattr(self.slave, termios.TCSANOW, a)
+                        else:
+                            fl = fcntl.fcntl(self.slave, fcntl.F_GETFL)
+                            fcntl.fcntl(self.slave, fcntl.F_SETFL, fl ^ os.O_NONBLOCK)
+                    elif st["k"] in ("enter", "build"):
                         kind = st["kind"]
                         if st.get("reuse") and kind in exited:
                             obj = exited[kind]
@@ -102,6 +111,9 @@ class Scenario:
                             obj = Nonblocking(self.in_stream)
                         else:
                             obj = Termmode(self.in_stream, given_attrs)
+                        if st["k"] == "build":
+                            exited[kind] = obj        # constructed now, entered by a later step (reuse=1)
+                            return
                         n0 = len(self.out.replies)
                         obj.__enter__()
                         stack.append((kind, obj))
@@ -312,6 +324,19 @@ class C12(TraceCheck):
                     yield [init, E("Input", sigint=sig), OP("request"), X, E("Input", sigint=sig), OP("request"), X,
                            E("Input", sigint=sig), OP("trigger"), X]
                 yield [init, E("Nonblocking"), E("Input"), OP("request"), X, X]
+                # a context object constructed first and entered later, or used again, after the terminal's
+                # attributes / flags were changed in between (by the application or by another context)
+                def B(kind, **o):
+                    return dict(E(kind, **o), k="build")
+                for kind in ("Cbreak", "Nonblocking", "Termmode", "Input", "Fullscreen", "CursorAware"):
+                    body1 = [OP("request_key")] if kind == "Input" else [OP("render")] if kind in ("Fullscreen", "CursorAware") else []
+                    for what in ("echo", "nb"):
+                        ENV = {"k": "env", "what": what}
+                        yield [init, B(kind), ENV, E(kind, reuse=1)] + body1 + [X]
+                        if kind not in ("Fullscreen", "CursorAware"):      # a window object cannot be entered twice
+                            yield [init, E(kind)] + body1 + [X, ENV, E(kind, reuse=1)] + body1 + [R]
+                    if kind != "Input":
+                        yield [init, B(kind), E("Input", nostart=1), E(kind, reuse=1)] + body1 + [X, OP("request"), X]
                 # the SAME object entered again after having been left (Input documents this use)
                 for kind in ("Input", "Cbreak", "Nonblocking", "Termmode"):
                     yield [init, E(kind), X, E(kind, reuse=1), X, E(kind, reuse=1), R]
